@@ -273,15 +273,17 @@ def clearActive (s : State) (k : Nat × Nat) : Option State :=
   | some m => some { s with amap := Store.put s.amap k { m with active := false } }
 
 /-- The start decision of one begin-block for one auction-mapping entry `k = (app, asset)`; the Boolean says that the sweep is
-aborted (second generation only: `LiquidateForSurplusAndDebt` returns the first error and the begin-blocker, which is NOT wrapped
-in a cache context, keeps what was written so far).
+aborted. Since fix 6f0df35 in /repo (`LiquidateForSurplusAndDebt` wraps each kick-off in `ApplyFuncIfNoError` and goes on to the next
+mapping) it is always `false` for both generations: a failing kick-off is rolled back — in particular the lot that
+`GetAmountFromCollector` moved before `CreateLockedVault` failed — and does not stop the remaining entries. (Before the fix the
+second generation returned the first error and kept what was written so far: lots piled up in `auctionV1` without an auction.)
 
 first generation (`gen2 = false`; x/auction `SurplusActivator` / `DebtActivator`, surplus.go:15-78, debt.go:15-70, each inside
 `ApplyFuncIfNoError`): not active, kill switch off, ESM off; surplus: `netFees ≥ surplusThreshold + lotSize` ⇒
 `GetAmountFromCollector(lot)` then active; debt: `netFees ≤ debtThreshold − lotSize` ⇒ active (nothing leaves the collector).
 second generation (`gen2 = true`; liquidationsV2 `CheckStatsForSurplusAndDebt`, liquidate.go:468-524): not active, kill switch
 off (ESM is NOT consulted); same two comparisons; the locked vault can only be created when English auctions are activated for
-the app — otherwise the error surfaces AFTER `GetAmountFromCollector` already moved the lot.
+the app — otherwise the error surfaces AFTER `GetAmountFromCollector` already moved the lot, and the unit is rolled back.
 Assumed: the surplus and debt flags are mutually exclusive (enforced by `SetAuctionMappingForApp`), both assets of the collector
 entry exist, first-generation auction parameters exist for the app. -/
 def activateOne (s : State) (gen2 : Bool) (k : Nat × Nat) : State × Bool :=
@@ -293,11 +295,11 @@ def activateOne (s : State) (gen2 : Bool) (k : Nat × Nat) : State × Bool :=
       | some c, some v =>
         if gen2 then
           if v ≤ c.debtThr - c.lot ∧ m.debt = true then
-            if k.1 ∈ s.englishOn then (setActive s k m, false) else (s, true)
+            if k.1 ∈ s.englishOn then (setActive s k m, false) else (s, false)
           else if v ≥ c.surplusThr + c.lot ∧ m.surplus = true then
             match getAmount s k c.lot with
-            | none => (s, true)
-            | some s1 => if k.1 ∈ s.englishOn then (setActive s1 k m, false) else (s1, true)
+            | none => (s, false)
+            | some s1 => if k.1 ∈ s.englishOn then (setActive s1 k m, false) else (s, false)   -- the unit is rolled back
           else (s, false)
         else
           if m.surplus then
